@@ -341,6 +341,16 @@ def symbolExact (s : Sym) : Bool :=
     ((bnds.isEmpty && (o.orientable || o.count == 0)) == s.view.isOriented)
   | _, _, _ => false
 
+/-- the part of the monitor that is not a theorem (Props/C08.lean proves the corner part for every
+    valid symbol): an orientable symbol has an even `2 - χ`, and the symbol is closed without
+    cross-cap exactly when the D-symbol is oriented. -/
+def genusMonitor (s : Sym) : Bool :=
+  match traceBoundary s, orbifoldSymbol s with
+  | .ok bnds, .ok o =>
+    (!o.orientable || (2 - (eulerCharacteristic s + (bnds.length : Int))) % 2 == 0) &&
+    ((bnds.isEmpty && (o.orientable || o.count == 0)) == s.view.isOriented)
+  | _, _ => false
+
 /-- `degree_list_as_string` -/
 def degreeListAsString (vs : List Nat) : String :=
   String.join (vs.map fun v => if v < 10 then toString v else "(" ++ toString v ++ ")")
